@@ -42,6 +42,7 @@ class Graph:
         self.inlined = []
         self.unresolved_inline = []
         self.method_index = None
+        self.event_call_rx = [re.compile(e["call"]) for e in spec.get("events", {}).values() if "call" in e]
 
     # ---------------------------------------------------------------- name resolution
     def build_index(self):
@@ -88,18 +89,70 @@ class Graph:
                 return c2[0]
         return None
 
+    def reaches_event(self, fname, seen=None, depth=0):
+        """does the body of `fname` (transitively, through resolvable crate calls) contain a call
+        that one of the obligation's call-events matches?  Memoised; recursion cut at depth 5."""
+        memo = self.__dict__.setdefault("_reach_memo", {})
+        if fname in memo:
+            return memo[fname]
+        if seen is None:
+            seen = set()
+        if fname in seen or depth > 5:
+            return False
+        seen.add(fname)
+        f = self.funcs[fname][0]
+        res = False
+        for b in f.order:
+            blk = f.blocks[b]
+            if blk.cleanup or blk.kind != "call":
+                continue
+            callee = blk.call["callee"]
+            if any(r.search(callee) for r in self.event_call_rx):
+                res = True
+                break
+        if not res:
+            for b in f.order:
+                blk = f.blocks[b]
+                if blk.cleanup or blk.kind != "call":
+                    continue
+                callee = blk.call["callee"]
+                if any(r.search(callee) for r in self.noinline_rx):
+                    continue
+                tgt = self.resolve_cached(callee)
+                if tgt is not None and tgt != fname and self.reaches_event(tgt, seen, depth + 1):
+                    res = True
+                    break
+        memo[fname] = res
+        return res
+
+    def resolve_cached(self, callee):
+        c = self.__dict__.setdefault("_resolve_memo", {})
+        if callee not in c:
+            c[callee] = self.resolve(callee)
+        return c[callee]
+
     def want_inline(self, callee, depth):
         if depth >= self.max_depth:
             return None
         if any(r.search(callee) for r in self.noinline_rx):
             return None
-        if not any(r.search(callee) for r in self.inline_rx):
+        explicit = any(r.search(callee) for r in self.inline_rx)
+        if not explicit and not self.spec.get("auto_inline", True):
             return None
-        tgt = self.resolve(callee)
+        tgt = self.resolve_cached(callee)
         if tgt is None:
-            self.unresolved_inline.append(callee)
+            if explicit:
+                self.unresolved_inline.append(callee)
             return None
-        return tgt
+        if explicit:
+            return tgt
+        # automatic: inline crate functions through which an event of this obligation is reachable,
+        # unless the call itself is one of the events (then it stays an opaque event)
+        if any(r.search(callee) for r in self.event_call_rx):
+            return None
+        if self.reaches_event(tgt):
+            return tgt
+        return None
 
     # ---------------------------------------------------------------- CFG expansion
     def back_edges(self, f):
